@@ -25,15 +25,16 @@ type record struct {
 	X0m, Y0m         float64 // false origin in metres
 	A, Rf            float64
 	Towgs            []float64
-	Unit             string // metre, foot, us-ft
+	Unit             string // metre, foot, us-ft, yard, kilometre
 	Spelling         int    // WKT parameter-name variant
 	UnitFirst        bool   // WKT clause order: UNIT directly behind GEOGCS instead of last
 	P4Reversed       bool   // PROJ.4 parameters written in the opposite order
 	ParamsFirst      bool   // WKT clause order: the PARAMETER clauses before PROJECTION
+	WktStyle         int    // white space in the WKT text: 0 none, 1 a blank after every comma, 2 a line break and indentation after every comma
 	SphName          string // WKT spheroid name ("" = a neutral one); the numbers behind it are the record's own
 }
 
-var unitToMeter = map[string]float64{"metre": 1, "foot": 0.3048, "us-ft": 1200.0 / 3937.0}
+var unitToMeter = map[string]float64{"metre": 1, "foot": 0.3048, "us-ft": 1200.0 / 3937.0, "yard": 0.9144, "kilometre": 1000}
 
 func g(v float64) string { return fmt.Sprintf("%.17g", v) }
 
@@ -66,6 +67,9 @@ func (r record) proj4() string {
 			b.WriteString(" +units=ft")
 		case "us-ft":
 			b.WriteString(" +units=us-ft")
+		case "yard", "kilometre":
+			// a unit PROJ.4 has no name for here: given by its length
+			b.WriteString(" +to_meter=" + g(unitToMeter[r.Unit]))
 		}
 	}
 	b.WriteString(" +no_defs")
@@ -98,11 +102,22 @@ func (r record) geogWKT() string {
 }
 
 func (r record) wkt() string {
+	w := r.wktCompact()
+	switch r.WktStyle {
+	case 1:
+		w = strings.ReplaceAll(w, ",", ", ")
+	case 2:
+		w = strings.ReplaceAll(w, ",", ",\n    ")
+	}
+	return w
+}
+
+func (r record) wktCompact() string {
 	if r.Proj == "geog" {
 		return r.geogWKT()
 	}
 	u := unitToMeter[r.Unit]
-	uname := map[string]string{"metre": "metre", "foot": "foot", "us-ft": "US survey foot"}[r.Unit]
+	uname := map[string]string{"metre": "metre", "foot": "foot", "us-ft": "US survey foot", "yard": "yard", "kilometre": "kilometre"}[r.Unit]
 	par := func(n string, v float64) string { return fmt.Sprintf(`PARAMETER["%s",%s]`, n, g(v)) }
 	var ps []string
 	name := ""
@@ -253,7 +268,7 @@ func main() {
 	for _, b := range base {
 		for _, sp := range spheroids {
 			for _, tw := range towgs {
-				for _, u := range []string{"metre", "foot", "us-ft"} {
+				for _, u := range []string{"metre", "foot", "us-ft", "yard", "kilometre"} {
 					if b.Proj == "geog" && u != "metre" {
 						continue
 					}
@@ -285,6 +300,13 @@ func main() {
 					q.SphName = nm
 					recs = append(recs, q)
 				}
+				for st := 1; st <= 2; st++ {
+					// the same text with white space after the commas (no record of the
+					// base list has a comma inside a name)
+					q := r
+					q.WktStyle = st
+					recs = append(recs, q)
+				}
 				if b.Proj != "geog" {
 					r.ParamsFirst = true
 					recs = append(recs, r)
@@ -304,6 +326,9 @@ func main() {
 		}
 		if r.ParamsFirst {
 			class += "|parameters-before-projection"
+		}
+		if r.WktStyle != 0 {
+			class += []string{"", "|blank-after-commas", "|line-break-after-commas"}[r.WktStyle]
 		}
 		if r.SphName != "" {
 			class += "|spheroid-named-" + strings.ReplaceAll(r.SphName, " ", "_")
